@@ -364,7 +364,7 @@ func c07SendWorker(c *Ctx) {
 	}
 	fn := c.fname(sw)
 	// enumerate with send inlined path by path, so that "was WriteTo executed" is visible
-	ps := c.pathsO("R-C07-6", sw, an.PathOpts{EmitCut: true, InlinePaths: func(f *ssa.Function) bool { return f == send }})
+	ps := c.pathsO("R-C07-6", sw, an.PathOpts{EmitCut: true, InlinePaths: func(f *ssa.Function) bool { return f == send || c.helperInline(sw)(f) }})
 	seen := map[string]bool{}
 	for _, p := range ps {
 		if p.Ret == nil {
